@@ -384,6 +384,9 @@ def run_sharded(ctx: Ctx) -> None:
 def replay(rec: dict) -> bool:
     """Re-run one recorded request on a fresh build of its scenario (round 0 state) with stubbed and live handlers."""
     rp = rec["replay"]
+    if rp.get("mode") == "refused-noop":
+        from harness.rigs import request_callers as rcall
+        return rcall.replay(rp)
     if "ops" in rp and ("zoo_seed" in rp or "gen_family" in rp or "scenario" in rp) and "req" in rp and "state" in rp:
         return rcon.replay(rp, registry())   # a contract-search replay
     if "setup_ops" in rp:                    # recorded by the static part's rigs (R-schema / R-guards)
@@ -513,6 +516,14 @@ def run(ctx: Ctx):
         t0 = time.time()
         edits(ctx)
         _stage(ctx, "R-edits", t0)
+    t0 = time.time()
+    # R-callers: a refused agent action is a do-nothing step for the simulation (what the callers do with a non-success response)
+    from harness.rigs import request_callers as rcall
+    try:
+        rcall.refused_step_is_noop(ctx)
+    except Exception as e:
+        ctx.notes.append(f"R-callers not run: {type(e).__name__}: {str(e)[:120]}")
+    _stage(ctx, "R-callers", t0)
     t0 = time.time()
     # static part: schematic request tree (E4) x action templates (E5): C05_action_templates_resolve & co (Props/C05Schema.lean)
     from harness.props import c05x
